@@ -1,7 +1,7 @@
 (* C08 - Indexing and pointwise evaluation agree with dense indexing.
    Only theorem statements closed by `exact`, each followed by Print Assumptions. *)
 From Coq Require Import List Arith ZArith.
-From TT Require Import RingSig SumN Mat Dense Core Arith Reduce Struct Index CoreP ArithP StructP ReduceDimsP IndexP GetitemP GetitemNoneP.
+From TT Require Import RingSig Instances SumN Mat Dense Core Arith Reduce Struct Index CoreP ArithP StructP ReduceDimsP IndexP GetitemP GetitemNoneP GetitemTTMP.
 Import ListNotations.
 
 Section C08.
@@ -79,6 +79,13 @@ Theorem C08_getitem_trailing_ellipsis (x : tt R) (t : list ixitem) it0 : forallb
   getitem_tuple x ((it0 :: t) ++ [IEll]) =
   getitem_tuple x ((it0 :: t) ++ repeat full_slice (length x + 1 + length (filter is_none (it0 :: t)) - S (S (length t)))).
 Proof. exact (getitem_trailing_ellipsis x t it0). Qed.
+(* TT MATRICES: A[i1, ..., id, j1, ..., jd] for a full tuple of integers (negative allowed, each normalised against its row / column mode) is the
+   entry of the dense operator at that (row, column) multi-index - every order, mode sizes and rank profile; the loop works on the merged mode *)
+Theorem C08_getitem_ttm_all_int (x : ttm R) (zs ws : list Z) (is_ js : list nat) : wf4 x ->
+  norm_ints (shapeM x) zs = Some is_ -> norm_ints (shapeN x) ws = Some js ->
+  getitem_ttm x (map IInt zs ++ map IInt ws) = GS (entry4 x is_ js).
+Proof. exact (getitem_ttm_all_int x zs ws is_ js). Qed.
+
 End C08.
 Print Assumptions C08_apply_mask_full.
 Print Assumptions C08_remaps_entry.
@@ -91,3 +98,10 @@ Print Assumptions C08_reduce_dims_none_kept.
 Print Assumptions C08_getitem_with_none.
 Print Assumptions C08_getitem_leading_ellipsis.
 Print Assumptions C08_getitem_trailing_ellipsis.
+Print Assumptions C08_getitem_ttm_all_int.
+(* the hypotheses are satisfiable and the statement computes: a 2 x 3 (x) 2 x 2 integer operator indexed with [1, -1, -3, 0] *)
+Example C08_getitem_ttm_instance :
+  let A := [mk4 1 2 3 2 (fun _ i j q => Z.of_nat (i * 7 + j * 3 + q + 1)); mk4 2 2 2 1 (fun p i j _ => Z.of_nat (p * 5 + i * 2 + j + 2))] in
+  norm_ints (shapeM A) [1; -1]%Z = Some [1; 1]%nat /\ norm_ints (shapeN A) [-3; 0]%Z = Some [0; 0]%nat /\
+  getitem_ttm A (map IInt [1; -1]%Z ++ map IInt [-3; 0]%Z) = GS (entry4 A [1; 1]%nat [0; 0]%nat) /\ entry4 A [1; 1]%nat [0; 0]%nat = 113%Z.
+Proof. vm_compute. repeat split; reflexivity. Qed.
